@@ -493,6 +493,28 @@ def replay(cid, path):
         b = bytes.fromhex(inp["bytes_hex"])
     elif inp.get("zone") in names:
         b = T.zone_bytes(inp["zone"], names)
+    elif str(inp.get("zone", "")).split(":")[0] in ("tzical", "tzstr", "tzrange", "tzlocal"):
+        # generated non-tzfile zone: rebuild the description, show implementation and expected values
+        import tzfile_genzones as G
+        descs = G.posix_descs(("tzlocal", "tzstr", "tzrange", "tzical"))
+        r = C.rng("genzones/" + cid)
+        descs += [d for d in (G.multi_era_desc(r, k) for k in range(400)) if d is not None]
+        cand = [d for d in descs if d.name == inp["zone"] and (not inp.get("vtimezone") or getattr(d, "text", None) == inp["vtimezone"])]
+        if not cand:
+            print("zone description not regenerated (other VERIF_SEED?):", json.dumps(data, indent=1)[:3000])
+            return 0
+        d = cand[0]
+        ref = bytes(o.call(6, T.raw_args(d.raw()))[1:])
+        zz = d.make()
+        if "u" in inp:
+            print("input      zone=%s u=%d" % (d.name, inp["u"]))
+            print("impl      ", T.impl_obs_utc(zz, inp["u"], 0))
+            print("expected  ", T.spec_utc(o, ref, [inp["u"]]), "(off, local, fold) from the zone's definition")
+        if "w" in inp:
+            print("input      zone=%s w=%d fold=%d" % (d.name, inp["w"], inp.get("fold", 0)))
+            print("impl      ", T.impl_obs_wall(zz, inp["w"], inp.get("fold", 0)))
+            print("expected  ", T.spec_wall(o, ref, [inp["w"]]))
+        return 0
     else:
         print("replay without a tzfile input:", json.dumps(data, indent=1)[:3000])
         return 0
@@ -514,6 +536,37 @@ def replay(cid, path):
     return 0
 
 
+class OrderedVerdict(object):
+    """Buffers the violations of a run and hands them to common.Verdict with the CONCRETE ones first
+    (common.Verdict prints the first five): a concrete failing input must not be hidden behind
+    model/implementation differences found earlier in the zone list."""
+
+    def __init__(self, real):
+        self.real, self.buf = real, []
+
+    def violation(self, payload, concrete=True):
+        self.buf.append((payload, concrete))
+        return True
+
+    def flush(self):
+        for payload, concrete in sorted(self.buf, key=lambda pc: 0 if pc[1] else 1):
+            self.real.violation(payload, concrete)
+        self.buf = []
+
+    @property
+    def violations(self):
+        self.flush()
+        return self.real.violations
+
+    @property
+    def known_hits(self):
+        return self.real.known_hits
+
+    def finish(self):
+        self.flush()
+        return self.real.finish()
+
+
 # ------------------------------------------------------------------------------ main
 def main(cid):
     argv = sys.argv[1:]
@@ -523,7 +576,7 @@ def main(cid):
     p = PARAMS[tier]
     t0 = time.time()
     import tzfile_findings
-    verdict = C.Verdict(cid, tzfile_findings.MATCHERS)
+    verdict = OrderedVerdict(C.Verdict(cid, tzfile_findings.MATCHERS))
     build_err = None
     try:
         C.ensure_built([T.AREA], VO[cid])
@@ -704,6 +757,29 @@ def main(cid):
                                                    "only (differential); theorems belong to C08/C17"}
         for x in obad[:2]:
             verdict.violation({"kind": "property (other zone class): " + x["why"], "input": x})
+        import tzfile_genzones as G
+        nz_, zbad, zstats = G.run(cid, o, tier)
+        evals += nz_
+        cov_extra["generated_zone_classes"] = {
+            "cases": nz_, "zones": len(zstats), "failures": len(zbad),
+            "per_kind": dict((k, sum(v for n_, v in zstats.items() if n_.split(":")[0] == k))
+                             for k in sorted(set(n_.split(":")[0] for n_ in zstats))),
+            "note": "tzical from multi-era component lists (2-4 eras, std offsets negative/zero/positive incl. "
+                    "sub-hour, DST at offset 0, shuffled component order), tzical/tzstr/tzrange/tzlocal from POSIX "
+                    "rules of both hemispheres incl. the Azores rule; one zone OBJECT per description, instants in "
+                    "shuffled order + a second pass; expected values from an independent piecewise-constant offset "
+                    "function evaluated by the extracted SPEC; positive saving only (negative saving: F-C08-3/4, F-C17-1)"}
+        shown = 0
+        for x in zbad:
+            if x.get("near_std_change") or shown < 3:
+                shown += 0 if x.get("near_std_change") else 1
+                verdict.violation({"kind": "property (generated zone): " + x["why"], "input": x})
+        if cid == "C04":
+            nt, tbad = G.thread_stress(1.5 if tier == "quick" else 6.0)
+            evals += nt
+            cov_extra["two_thread_stress_conversions"] = nt
+            for x in tbad[:1]:
+                verdict.violation({"kind": "property (one zone object, several threads): " + x["why"], "input": x})
         ng, gbad = generic_layer_stream(o, tier)
         evals += ng
         cov_extra["generic_layer_cases"] = ng
